@@ -705,6 +705,11 @@ def r8_fresh_and_renumbered(ctx):
                     (dotted(s.iter.args[0]) or "") in ("newTopology." + lst, "newTopology." + attr):
                 if any(isinstance(x, ast.Assign) and isinstance(x.targets[0], ast.Attribute) and x.targets[0].attr == "index" for x in ast.walk(s)):
                     renum.append(i)
+        if not filters and len(renum) == 1:
+            # the removal of the empty ones does not stand in this body as a list comprehension (moved into a helper, written as a loop ...):
+            # the order is decided by value in C04-R9 (subset worlds that empty a residue and a chain: indices contiguous afterwards), not here
+            ctx.decide(True, "C04-R8", body[renum[0]], TOP, "_topology_from_subset", "%s renumbered once; the removal is not in this body - its effect is decided by evaluation (C04-R9)" % attr, "", "")
+            continue
         ok = len(renum) == 1 and bool(filters) and max(filters) < renum[0]
         ctx.decide(ok, "C04-R8", body[renum[0]] if renum else fn, TOP, "_topology_from_subset", "%s renumbered once, after the empty ones were removed" % attr, "",
                    "the index renumbering of %s (statement %s) does not come after the removal of the empty ones (statement %s): the indices of the survivors keep gaps, `top.%s(i).index != i`"
